@@ -1143,6 +1143,15 @@ class RpcServer:
             error_message = str(exc)
             with contextlib.suppress(BrokenPipeError, OSError):
                 _write_error_stream(transport.writer, _EMPTY_SCHEMA, exc, server_id=self._server_id)
+            if info.header_type is None:
+                # Without a header phase the client learns of the failure only
+                # when it reads the reply to its first input batch, so its
+                # input stream is already on the way (or will be, as a bare
+                # EOS from close()).  Consume it here; left unread it would be
+                # taken for the next request and every later reply would be
+                # one call out of step.
+                with contextlib.suppress(pa.ArrowInvalid, OSError, StopIteration):
+                    _drain_stream(ValidatedReader(ipc.open_stream(transport.reader), self._ipc_validation))
             return
         finally:
             if status == "error":
